@@ -77,6 +77,8 @@ def tlc(spec_dir, module, cfg_text, env=None, workers=8, timeout=600, extra=None
     open(os.path.join(d, module + ".cfg"), "w").write(cfg_text)
     e = dict(os.environ)
     e.update(env or {})
+    # the JVM's own temporary directories (tlc-*) go into the scratch directory of this run, which is removed at exit
+    e["JAVA_TOOL_OPTIONS"] = (e.get("JAVA_TOOL_OPTIONS", "") + " -Djava.io.tmpdir=" + d).strip()
     cmd = ["tlc", "-workers", str(workers), "-metadir", os.path.join(d, "meta"), "-config", module + ".cfg"] + (extra or []) + [module + ".tla"]
     t0 = time.time()
     rc, out = sh(cmd, timeout, env=e, cwd=d)
